@@ -148,6 +148,10 @@ def dec_cases(rng, tier):
             for cap in sorted(caps):
                 cases.append(f"{op} {cap} {hexs(s)}")
             nm = 14 if tier == "quick" else 40
+            if fmt == "snappy" and (tier == "thorough" or i % 4 == 0):
+                # elements whose length does not fit 32-bit arithmetic, spliced at every element boundary
+                for m in CL.overflow_splices(rng, s, limit=None if tier == "thorough" else 3):
+                    cases.append(f"{op} {len(x)} {hexs(m)}")
             for m in CL.mutations(rng, s, fmt, limit=nm):
                 cap = rng.choice([len(x), len(x), len(x) + 1, len(x) + 64, max(0, len(x) - 1)])
                 cases.append(f"{op} {cap} {hexs(m)}")
@@ -162,6 +166,8 @@ def dec_cases(rng, tier):
         "sdec 5 0500610102", "sdec 5 05006109020000",                   # offset beyond produced
         "sdec 2 02f0006161", "sdec 2 02f40000" + "6161", "sdec 1 01f800000061", "sdec 1 01fc0000000061",  # long length forms
         "sdec 1 01fc00000080", "sdec 70000 f0a204fcffffffff61",          # huge literal length, truncated
+        "sdec 2 020061fcffffffff0062", "sdec 2 02fcffffffff00610062", "sdec 2 0200610062fcffffffff", "sdec 1 01fcffffffff0061",
+        "sdec 2 020061fcfeffffff0062", "sdec 2 020061f8ffffff0062", "sdec 0 00fcffffffff",   # literal of 2^32 bytes (wraps to 0 in uint32_t)
         "ldec 5 10610100", "ldec 5 1061010000", "ldec 0 -", "ldec 0 00", "ldec 1 1f61", "ldec 1 0f",
         "ldec 5 10610000", "ldec 5 10610200", "ldec 5 106101", "ldec 50 1f610100",
         "ldec 17 10610100c00102030405060708090a0b0c", "ldec 13 146101004001020304",
@@ -211,7 +217,9 @@ def check_decoders(rep, tier, rng, drv, run):
             rep.violation(b, {"kind": "dec", "case": line, "impl": out[:300]})
         # reference library vs the Python reference (validates the generator / specification)
         if op == "sdec":
-            if (must == "OK") != (lib == "OK") or (lib == "OK" and lval != y):
+            lax = (lib == "OK" and must != "OK" and int(cap) >= len(lval) and CL.snappy_ref_decode(unhex(sh), wrap32=True) == lval
+                   and CL.snappy_ref_decode(unhex(sh)) is None)       # libsnappy wraps a 2^32-byte literal length to 0
+            if not lax and ((must == "OK") != (lib == "OK") or (lib == "OK" and lval != y)):
                 rep.tie_broken(f"libsnappy and the independent Python decoder disagree: lib={lib} python={must}", line)
         else:
             # (liblz4 does not reject offset 0 and enforces part of the end rules: only compare where both accept)
@@ -288,6 +296,30 @@ def check_compressors(rep, tier, rng, drv, run):
                 mt = mod[i].split()
                 if len(mt) < 2 or mt[0] != "OK" or unhex(mt[1]) != d["c"]:
                     rep.tie_broken(f"model tie: the concrete-hash compressor model does not predict {op}'s bytes: model {mod[i][:80]} / impl {out[:80]}", line[:300])
+    # inputs generated in the driver: sizes around every length boundary of the preamble varint, 4 .. 10 MiB
+    bl = CL.big_lines(tier)
+    bout, bdeaths = CL.run_all(vlib, drv, bl, timeout=2400)
+    for case, rc, summ in bdeaths:
+        rep.violation(f"compressor: sanitizer report or crash (rc={rc}) on this input: {summ}", {"kind": "big", "case": case})
+    sizes = sorted({int(l.split()[3]) for l in bl})
+    extra = sorted(set(sizes + [0, 1, 127, 128, 16383, 16384, (1 << 21) - 1, 1 << 21, (1 << 28) - 1, 1 << 28, (1 << 32) - 1, (1 << 28) + (1 << 21), 0x0FE03F80]))
+    vout, _ = run_sharded(run, [f"svarint {n}" for n in extra])
+    mv = {}
+    for n, o in zip(extra, vout):
+        t = o.split()
+        mv[n] = unhex(t[1]) if len(t) == 2 and t[0] == "OK" else None
+        if mv[n] != CL.varint(n):
+            rep.tie_broken(f"model write_varint({n}) = {o} differs from the base-128 varint {CL.varint(n).hex()}", f"svarint {n}")
+    for line, out in zip(bl, bout):
+        if out == "FAULT died":
+            continue
+        rep.count(line)
+        bad, head = CL.judge_big(line, out)
+        for b in bad:
+            rep.violation(b, {"kind": "big", "case": line, "impl": out[:200]})
+        n = int(line.split()[3])
+        if line.split()[1] == "snappy" and head is not None and mv.get(n) is not None and head[:len(mv[n])] != mv[n]:
+            rep.tie_broken(f"snappy_write_varint: the implementation's preamble {head[:5].hex()} differs from the model's {mv[n].hex()} for n = {n}", line)
     # carquet's output through the extracted specification decoder (the property's own oracle)
     sout, p3 = run_sharded(run, spec_lines)
     for pr in p3:
@@ -348,7 +380,9 @@ def replay(path):
         print(err[-2500:])
     if rc != 0 or not out:
         return 1
-    if case.split()[0] in ("sdec", "ldec"):
+    if case.split()[0] == "big":
+        bad = CL.judge_big(case, out[0])[0]
+    elif case.split()[0] in ("sdec", "ldec"):
         bad = judge_dec(case, out[0])[0]
     else:
         bad, d = judge_comp(case, out[0])
